@@ -92,6 +92,8 @@ type c12Fake struct {
 	log    *c12Log
 	// fault plan for synchronous writes: the next Put on the op goroutine returns a transient error
 	failSync bool
+	// fault plan for deletes: the next Delete returns a transient error
+	failDelete bool
 }
 
 type c12Handle struct {
@@ -158,6 +160,12 @@ func (h *c12Handle) Delete(ctx context.Context, ns, key string) error {
 	if h.epoch != f.epoch {
 		f.mu.Unlock()
 		return errC12Dead
+	}
+	if f.failDelete {
+		f.failDelete = false
+		f.mu.Unlock()
+		f.log.add("sdF%s", c12Idx(key))
+		return errC12Busy
 	}
 	delete(f.data, ns+"\x00"+key)
 	f.mu.Unlock()
@@ -620,6 +628,10 @@ type c12Env struct {
 // c12Ordering: learned at run time — the implementation serialises the writes of one key (a write waits for the
 // in-flight write of the same key), so a ticket may not reach the store before earlier ones are released.
 var c12Ordering bool
+
+// c12DelRetry: learned at run time — does the implementation repeat a checkpoint Delete that failed?
+// 0 unknown, 1 yes, 2 no
+var c12DelRetry int
 
 var c12StampRe = regexp.MustCompile(`"t(\d+)"`)
 
@@ -1147,6 +1159,43 @@ func (e *c12Env) runCase(f []string) string {
 			}
 			e.tick++ // the delete takes a ticket of its own in the model
 			r := e.runOp(c12SessID(i), func() { e.p.release(i) })
+			out = append(out, "rel"+r+" "+e.log.take())
+		case "relf":
+			// release whose checkpoint Delete returns a transient Store error
+			i, _ := strconv.Atoi(a[1])
+			if !e.p.live(i) {
+				out = append(out, "skip")
+				continue
+			}
+			e.tick++
+			e.fake.mu.Lock()
+			e.fake.failDelete = true
+			e.fake.mu.Unlock()
+			r := e.runOp(c12SessID(i), func() { e.p.release(i) })
+			e.fake.mu.Lock()
+			e.fake.failDelete = false
+			e.fake.mu.Unlock()
+			if c12DelRetry != 2 {
+				d := 3 * time.Second
+				if c12DelRetry == 0 {
+					d = 700 * time.Millisecond
+				}
+				gone := c12WaitFor(d, func() bool {
+					e.log.mu.Lock()
+					defer e.log.mu.Unlock()
+					for _, l := range e.log.l {
+						if l == "sd"+strconv.Itoa(i) {
+							return true
+						}
+					}
+					return false
+				})
+				if gone {
+					c12DelRetry = 1
+				} else if c12DelRetry == 0 {
+					c12DelRetry = 2
+				}
+			}
 			out = append(out, "rel"+r+" "+e.log.take())
 		case "done":
 			t, _ := strconv.Atoi(a[1])
